@@ -651,7 +651,10 @@ class C18:
                 counters["unencodable_metadata_cases"] = 1
         before = env.snapshot(sb)
         env.AUDIT.start()
-        oc = drive.cli_execute(argv)
+        no_stderr = "-v" in prefix and case["seed"] % 2 == 0
+        if no_stderr:
+            counters["verbose_without_stderr_cases"] = 1
+        oc = drive.cli_execute(argv, no_stderr=no_stderr)
         events = env.AUDIT.stop()
         details = list(env.AUDIT.details)
         after = env.snapshot(sb)
